@@ -405,7 +405,7 @@ def run_long(rule, both=True):
 
 FRESH_SNIPPET = (
     "import sys, json\n"
-    "sys.path.insert(0, '/repo'); sys.path.insert(0, %r)\n"
+    "import os\nsys.path.insert(0, %r)\n"
     "from mc import boot\nboot.install()\nfrom mc import progs\nprogs.worker_setup()\n"
     "try:\n    out = progs.format_code(progs.build([%r], 'module'), {})\n"
     "except BaseException as e:\n    out = 'EXC:' + type(e).__name__\n"
